@@ -12,7 +12,8 @@ import (
 )
 
 type Gen struct {
-	r *rand.Rand
+	r       *rand.Rand
+	hostile bool
 }
 
 func NewGen(seed int64, stream string) *Gen {
@@ -23,7 +24,7 @@ func NewGen(seed int64, stream string) *Gen {
 	return &Gen{r: rand.New(rand.NewSource(h))}
 }
 
-func (g *Gen) Intn(n int) int { return g.r.Intn(n) }
+func (g *Gen) Intn(n int) int           { return g.r.Intn(n) }
 func (g *Gen) Chance(num, den int) bool { return g.r.Intn(den) < num }
 
 var idPool = []string{
@@ -34,7 +35,12 @@ var idPool = []string{
 	"https://example.net/users/dan/outbox", "https://www.w3.org/ns/activitystreams#Public",
 }
 
-func (g *Gen) ID() ap.IRI { return ap.IRI(idPool[g.Intn(len(idPool))]) }
+func (g *Gen) ID() ap.IRI {
+	if g.hostile && g.Chance(1, 3) {
+		return ap.IRI(hostilePool[g.Intn(len(hostilePool))])
+	}
+	return ap.IRI(idPool[g.Intn(len(idPool))])
+}
 
 var textPool = []string{
 	"hello", "Hello World", "<p>html &amp; stuff</p>", "say \"hi\"", `C:\new\table`, "line1\nline2", "tab\there",
@@ -112,14 +118,16 @@ var structTypes = []reflect.Type{
 
 // Options steering the structured generator.
 type GenOpts struct {
-	Depth      int  // remaining nesting depth
-	FieldNum   int  // each field is set with probability FieldNum/FieldDen
+	Depth      int // remaining nesting depth
+	FieldNum   int // each field is set with probability FieldNum/FieldDen
 	FieldDen   int
 	Nanos      bool // instants may carry nanoseconds
 	TypedType  bool // Type drawn from the kind's vocabulary names
 	AlwaysID   bool
 	ValueForms bool // allow struct value (non-pointer) forms
 	NilEntries bool // allow nil entries in lists
+	Hostile    bool // string-typed properties (ids, types, media types, units, tags, keys) drawn from the hostile pool
+	SmallDur   bool // durations: whole seconds, |d| < 24h
 }
 
 func DefaultOpts() GenOpts {
@@ -128,6 +136,7 @@ func DefaultOpts() GenOpts {
 
 // Struct returns a random value of the given struct type (pointer or value form).
 func (g *Gen) Struct(rt reflect.Type, o GenOpts) ap.Item {
+	g.hostile = o.Hostile
 	pv := reflect.New(rt)
 	g.fill(pv.Elem(), o)
 	if o.ValueForms && g.Chance(1, 4) {
@@ -148,6 +157,10 @@ func (g *Gen) fill(rv reflect.Value, o GenOpts) {
 			continue
 		}
 		if f.Name == "Type" {
+			if o.Hostile && g.Chance(1, 4) {
+				fv.SetString(hostilePool[g.Intn(len(hostilePool))])
+				continue
+			}
 			if o.TypedType {
 				ts := typeByKind[rt.Name()]
 				if len(ts) > 0 {
@@ -185,9 +198,24 @@ func (g *Gen) fill(rv reflect.Value, o GenOpts) {
 			}
 			fv.Set(reflect.ValueOf(ep))
 		case f.Type == tPubKey:
-			fv.Set(reflect.ValueOf(ap.PublicKey{ID: g.ID(), Owner: g.ID(), PublicKeyPem: "-----BEGIN PUBLIC KEY-----\nMIIB\n-----END PUBLIC KEY-----"}))
+			pem := "-----BEGIN PUBLIC KEY-----\nMIIB\n-----END PUBLIC KEY-----"
+			if o.Hostile && g.Chance(1, 2) {
+				pem = hostilePool[g.Intn(len(hostilePool))]
+			}
+			pk := ap.PublicKey{ID: g.ID(), Owner: g.ID(), PublicKeyPem: pem}
+			switch g.Intn(4) {
+			case 0:
+				pk.ID = ""
+			case 1:
+				pk.PublicKeyPem = ""
+			}
+			fv.Set(reflect.ValueOf(pk))
 		case f.Type.Kind() == reflect.String:
-			fv.SetString([]string{"text/html", "en", "m", "https://example.com/rel", "Note"}[g.Intn(5)])
+			if o.Hostile && g.Chance(1, 2) {
+				fv.SetString(hostilePool[g.Intn(len(hostilePool))])
+			} else {
+				fv.SetString([]string{"text/html", "en", "m", "https://example.com/rel", "Note"}[g.Intn(5)])
+			}
 		case f.Type.Kind() == reflect.Uint:
 			fv.SetUint(uint64(g.Intn(1000)))
 		case f.Type.Kind() == reflect.Int64:
